@@ -21,17 +21,17 @@ import BSModel.Gen.Text
     query  := <path>/<op>[/<arg>…]   path = r | i.j.k   (child indices from the root)
               A/<strip>/<types>  G/<strip>/<types>/<sep>  ST  SS  TX  SP
     types  := d | n | o<cls> | m<cls.cls…> | m-
-    cls    := index into the generated `knownStringClasses`, or 100+k for `.other k` -/
+    cls    := index into the generated `c13KnownStringClasses`, or 100+k for `.other k` -/
 namespace BS.Drv.C13
 open BS.Text BS.Drv
 
 def clsOf (n : Nat) : StrClass :=
-  if n ≥ 100 then .other (n - 100) else BS.Gen.knownStringClasses.getD n (.other 99999)
+  if n ≥ 100 then .other (n - 100) else BS.Gen.c13KnownStringClasses.getD n (.other 99999)
 
 def codeOf (c : StrClass) : Nat :=
   match c with
   | .other k => 100 + k
-  | c => BS.Gen.knownStringClasses.idxOf c
+  | c => BS.Gen.c13KnownStringClasses.idxOf c
 
 def parseCls (s : String) : StrClass := clsOf s.toNat!
 
@@ -79,7 +79,7 @@ def nodeAt : Node → List Nat → Option Node
 def showP (s : PStr) : String := if s.isEmpty then "e" else showCps s
 def showPieces (l : List PStr) : String := "[" ++ ";".intercalate (l.map showP) ++ "]"
 
-def main := BS.Gen.mainContentStringTypes
+def main := BS.Gen.c13MainContentStringTypes
 
 /-- the recursive evaluator's answer to an `_all_strings` query -/
 def specAll (strp : Bool) (types : TypesArg) : Node → List PStr
@@ -204,7 +204,38 @@ def handleHeap (mode kinds ops cls ints nq : String) (qs : List String) : String
     let L := heapLabels kinds.length (natList "." cls) (ints.splitOn ";") h
     " | ".intercalate ((qs.take nq.toNat!).map (answerHeap (mode == "tree") h L))
 
+def showContainers (l : List (PStr × StrClass)) : String :=
+  if l.isEmpty then "-" else ";".intercalate (l.map fun p => s!"{showL p.1}:{codeOf p.2}")
+
+def parseSCArg (s : String) : SCArg :=
+  if s == "U" then .useDefault
+  else if s == "N" then .none
+  else .dict (parseContainers (s.drop 2).toString)      -- `D:<containers>`
+
+def parseBuilder (s : String) : Option (Option (List (PStr × StrClass))) :=
+  if s == "N" then none
+  else if s == "BN" then some none
+  else some (some (parseContainers (s.drop 2).toString))   -- `B:<containers>`
+
+def showInit : InitResult → String
+  | .ok i => "ok " ++ showInteresting i
+  | .typeError => "TypeError"
+
 def handle : List String → String
+  | ["scarg", dflt, arg] =>
+    match builderStringContainers (parseContainers dflt) (parseSCArg arg) with
+    | none => "none"
+    | some l => "some " ++ showContainers l
+  | ["taginit", b, nm, param] => showInit (tagInitInteresting main (parseBuilder b) (cps nm) (parseInteresting param))
+  | ["newtag", b, nm] =>
+    (match parseBuilder b with
+     | some sc => showInit (newTagInteresting main sc (cps nm))
+     | none => "bad-op")
+  | ["copyself", nm, param] => showInit (copySelfInteresting main (cps nm) (parseInteresting param))
+  | ["cstack", cont, names] =>
+    let c := parseContainers cont
+    let top := containerStackTop c ((splitNE ";" names).map cps)
+    s!"{match top with | none => "N" | some n => showL n} {codeOf (stringContainer [] c top none)}"
   | "heap" :: mode :: kinds :: ops :: cls :: ints :: nq :: qs => handleHeap mode kinds ops cls ints nq qs
   | "run" :: nq :: rest => runQueries false nq rest
   | "spec" :: nq :: rest => runQueries true nq rest
